@@ -30,3 +30,13 @@ for d in sorted(glob.glob(os.path.join(VERIF, 'seeded', '*'))):
 print('| seeded change | file(s) | what it does | detected by |')
 print('|---|---|---|---|')
 print('\n'.join(rows))
+
+# --update: rewrite the table between the markers of DESIGN.md
+import sys
+if '--update' in sys.argv:
+    p = os.path.join(VERIF, 'DESIGN.md')
+    s = open(p, encoding='utf-8').read()
+    a = s.index('<!-- SEEDTABLE-BEGIN -->') + len('<!-- SEEDTABLE-BEGIN -->\n')
+    b = s.index('<!-- SEEDTABLE-END -->')
+    table = '| seeded change | file(s) | what it does | detected by |\n|---|---|---|---|\n' + '\n'.join(rows) + '\n'
+    open(p, 'w', encoding='utf-8').write(s[:a] + table + s[b:])
